@@ -267,7 +267,9 @@ type rejReason struct {
 // collectRejections enumerates the rejecting branches of fn and, through module-internal callees whose
 // failure is the reason of a branch, of the whole verification tree below it.
 // rejectFoundMode: functions being examined as search helpers (reasons = conditions of returning an index).
+// (true: the integer result is the index found; with rejectFoundBool[fn] = k > 0: result k is the boolean "found")
 var rejectFoundMode = map[*ssa.Function]bool{}
+var rejectFoundBool = map[*ssa.Function]int{}
 
 func collectRejections(P *Program, fn *ssa.Function, depth int, seenFn map[string]bool, out *[]rejReason) int {
 	if fn == nil || fn.Blocks == nil || depth > 6 {
@@ -348,6 +350,18 @@ func collectRejections(P *Program, fn *ssa.Function, depth int, seenFn map[strin
 				return
 			}
 		}
+		// `idx, found := firstOffender(x)` with found true: likewise, the helper's conditions for returning found = true
+		if ex, isEx := a.V.(*ssa.Extract); isEx && a.Want == True && ex.Index > 0 && isBoolType(ex.Type()) {
+			if sc, isCall := ex.Tuple.(*ssa.Call); isCall {
+				if g := staticCallee(sc); g != nil && inModuleFn(g) && g.Blocks != nil && g.Object() != nil && !g.Object().Exported() && !rejectFoundMode[g] {
+					rejectFoundMode[g], rejectFoundBool[g] = true, ex.Index
+					bindCall(sc, g, func() { n += collectRejections(P, g, depth+1, seenFn, out) })
+					delete(rejectFoundMode, g)
+					delete(rejectFoundBool, g)
+					return
+				}
+			}
+		}
 		// `slices.Contains(list, nil)` over a list of known elements (the arguments of a variadic presence check): one
 		// missing-component reason per element
 		if c, _ := callAndResult(a.V); c != nil && a.Want == True && calleeName(c) == "slices.Contains" && len(callArgs(c)) == 2 && isNilConst(callArgs(c)[1]) {
@@ -407,6 +421,11 @@ func collectRejections(P *Program, fn *ssa.Function, depth int, seenFn map[strin
 			if p.Succs[1] == b {
 				want = False
 			}
+			// both sides reject (the test only picks the message): the reason is whatever led here
+			if !foundMode && rejectsAtOnce(p.Succs[0], sp) && rejectsAtOnce(p.Succs[1], sp) {
+				intoBlock(p, depth+1, seen)
+				continue
+			}
 			record(Atom{Fn: fn, V: iff.Cond, Want: want}, P.Pos(condPos(iff)))
 		}
 	}
@@ -426,6 +445,16 @@ func collectRejections(P *Program, fn *ssa.Function, depth int, seenFn map[strin
 	}
 	if foundMode {
 		for _, r := range returnsOf(fn) {
+			if k := rejectFoundBool[fn]; k > 0 {
+				if k < retCount(r) {
+					if bc, isB := boolConst(retValue(r, k)); isB && bc {
+						intoBlock(r.Block(), 0, map[*ssa.BasicBlock]bool{})
+					} else if !isB {
+						record(Atom{Fn: fn, V: retValue(r, k), Want: True}, P.Pos(r.Pos()))
+					}
+				}
+				continue
+			}
 			if retCount(r) != 1 {
 				continue
 			}
@@ -464,6 +493,26 @@ func collectRejections(P *Program, fn *ssa.Function, depth int, seenFn map[strin
 		verdict(retValue(r, sp.Bool), r, map[ssa.Value]bool{})
 	}
 	return n
+}
+
+// rejectsAtOnce: the block does nothing but return a rejection (a non-nil error that is made here, or false).
+func rejectsAtOnce(b *ssa.BasicBlock, sp rejectSpec) bool {
+	if len(b.Instrs) == 0 {
+		return false
+	}
+	r, ok := b.Instrs[len(b.Instrs)-1].(*ssa.Return)
+	if !ok {
+		return false
+	}
+	if sp.Err >= 0 && sp.Err < len(r.Results) {
+		_, made := r.Results[sp.Err].(*ssa.MakeInterface)
+		return made
+	}
+	if sp.Bool >= 0 && sp.Bool < len(r.Results) {
+		bc, isB := boolConst(r.Results[sp.Bool])
+		return isB && !bc
+	}
+	return false
 }
 
 func rejectionsRule(P *Program, R *Report, rule string, sp rejectSpec) {
